@@ -14,6 +14,15 @@ func (P *Prog) declaredWrites(env *TypeEnv, c *Contract) map[string]string {
 	add := func(name string) {
 		if name == "everything" {
 			out["*"] = ""
+			out["ghost*"] = ""
+			return
+		}
+		if name == "heap*" {
+			out["*"] = ""
+			return
+		}
+		if name == "ghost*" {
+			out["ghost*"] = ""
 			return
 		}
 		if s, ok := P.ghostComps[name]; ok {
@@ -27,6 +36,24 @@ func (P *Prog) declaredWrites(env *TypeEnv, c *Contract) map[string]string {
 	for _, it := range c.Modifies {
 		if it.IsAtom() {
 			add(it.Atom)
+		} else if it.Head() == "@" && len(it.List) == 3 {
+			if cst := findCast(it.List[1]); cst != nil {
+				if typ := P.typeByName(cst.List[2].Atom); typ != nil {
+					if st, ok := typ.Underlying().(*types.Struct); ok {
+						for i := 0; i < st.NumFields(); i++ {
+							if st.Field(i).Name() == it.List[2].Atom && !isStructType(st.Field(i).Type()) {
+								if env.addrFields[env.fieldKey(typ, i)] {
+									cn := env.cellComp(st.Field(i).Type())
+									out[cn] = env.comps[cn]
+								} else {
+									cn := env.fieldComp(typ, i)
+									out[cn] = env.comps[cn]
+								}
+							}
+						}
+					}
+				}
+			}
 		} else if len(it.List) > 0 {
 			add(it.List[0].Atom)
 		}
@@ -216,6 +243,7 @@ func (P *Prog) callWrites(env *TypeEnv, fn *ssa.Function, c *ssa.CallCommon, out
 			}
 		}
 		out["*"] = ""
+		out["ghost*"] = ""
 	}
 }
 
@@ -224,7 +252,7 @@ func (P *Prog) callWrites(env *TypeEnv, fn *ssa.Function, c *ssa.CallCommon, out
 func (P *Prog) funcWrites(env *TypeEnv, f *ssa.Function) map[string]string {
 	if m, ok := P.writesMemo[f]; ok {
 		for k, v := range m {
-			if k != "*" {
+			if k != "*" && k != "ghost*" {
 				env.Comp(k, v)
 			}
 		}
@@ -254,7 +282,7 @@ func (P *Prog) funcWrites(env *TypeEnv, f *ssa.Function) map[string]string {
 	}
 	P.writesMemo[f] = out
 	for k, v := range out {
-		if k != "*" {
+		if k != "*" && k != "ghost*" {
 			P.knownComps[k] = v
 		}
 	}
@@ -272,4 +300,19 @@ func (P *Prog) instrWrites(env *TypeEnv, fn *ssa.Function, in ssa.Instruction) m
 		}
 	}
 	return out
+}
+
+func findCast(x *Sx) *Sx {
+	if x.IsAtom() {
+		return nil
+	}
+	if x.Head() == "cast" && len(x.List) == 3 {
+		return x
+	}
+	for _, y := range x.List {
+		if c := findCast(y); c != nil {
+			return c
+		}
+	}
+	return nil
 }
